@@ -63,8 +63,22 @@ type VC struct {
 }
 
 func newVC(p *Prog, fnKey string) *VC {
-	return &VC{p: p, fnKey: fnKey, keySort: map[string]string{}, strLits: map[string]string{}, fltLits: map[string]string{},
+	vc := &VC{p: p, fnKey: fnKey, keySort: map[string]string{}, strLits: map[string]string{}, fltLits: map[string]string{},
 		closures: map[string]*closureInfo{}, trusted: map[string]bool{}, notes: map[string]bool{}, uf: map[string]bool{}}
+	// the map components are registered up front: a component registered lazily
+	// (at its first use) would not have been forgotten by the unknown calls that
+	// ran before that use
+	vc.ensureKey("MLen", "(Array Int Int)")
+	for _, ks := range []string{"Str", "Int"} {
+		vc.ensureKey("MD_"+ks, fmt.Sprintf("(Array Int (Array %s Bool))", ks))
+		for _, k := range allKinds {
+			if k == KM {
+				continue
+			}
+			vc.ensureKey("MV"+string(k)+"_"+ks, fmt.Sprintf("(Array Int (Array %s (Array Int %s)))", ks, k.Sort()))
+		}
+	}
+	return vc
 }
 
 func (vc *VC) fresh(prefix, sort string) Term {
